@@ -18,7 +18,8 @@ NEEDS = {
  "C12e-2": "a cursor fresh from Cursor()/Ceil() whose path slice is exactly at capacity, Forward into a right subtree >= 2 levels deep, fault on the 2nd or later Load (undo written through a stale pointer after append reallocated)",
  "C16e-1": "a persisted root that is still a link name, no NodeCache, a layer-0 key: Get loads the root twice (height+2 Loads)",
  "C16e-2": "height > 0, a top node with exactly one key and a left child, no NodeCache: checkRoot loads that child, LoadMast reads 2 nodes",
- "C09e-1": "a Delete that empties a node whose ancestors on the path are entry-less pass-through nodes (or become empty with it): savePathForRoot unlinks only the last node of the path when it is empty, so emptied ancestors stay linked as entry-less, child-less stored nodes", "C09e-2": "",
+ "C09e-1": "a tree reloaded from its root (no cache), an earlier insert that left the root dirty in memory, then an Insert into that root above a child that is only in the store, with a Load fault during the child split: the node is modified before the fallible split",
+ "C09e-2": "a Delete that brings the size down to the shrink threshold on a reloaded tree, with a Load fault on a sibling needed only by the shrink: the size is committed after the shrink loop, so it is never decremented although the entry is gone",
 }
 for f in sorted([x for x in glob.glob("/tmp/r5-eval/C??e-?.json")]):
     sid = os.path.basename(f)[:-5]
